@@ -10,6 +10,7 @@ import (
 	"encoding/json"
 	"fmt"
 	"math/big"
+	"os"
 	"reflect"
 	"strconv"
 	"strings"
@@ -43,6 +44,44 @@ type c05Fld struct {
 	Opts []string `json:"opts,omitempty"`
 	Rng  *c05Rng  `json:"rng,omitempty"`
 	Str  bool     `json:"str,omitempty"` // ",string"
+	Inh  bool     `json:"inh,omitempty"` // ",inherit": an absent value is looked up in the enclosing objects
+	Env  bool     `json:"env,omitempty"` // ",env=NAME" (NAME is made unique per call: proc.Env memoises lookups)
+	EV   *string  `json:"ev,omitempty"`  // value of the environment variable for this case (nil = unset)
+}
+
+// Environment variables of env= fields. Names must be fresh for every call of the
+// code under test because proc.Env caches the first lookup of a name for the life
+// of the process; the value belongs to the case (c05Fld.EV), the name does not.
+var (
+	c05EnvSalt  int
+	c05EnvNames = map[*c05Fld]string{}
+	c05EnvSet   []string
+)
+
+func c05EnvNewBuild() {
+	c05EnvSalt++
+	c05EnvNames = map[*c05Fld]string{}
+}
+
+func c05EnvAssign(f *c05Fld) string {
+	if n, ok := c05EnvNames[f]; ok {
+		return n
+	}
+	n := fmt.Sprintf("C05E_%d_%d", c05EnvSalt, len(c05EnvNames))
+	c05EnvNames[f] = n
+	if f.EV != nil {
+		_ = os.Setenv(n, *f.EV)
+		c05EnvSet = append(c05EnvSet, n)
+	}
+	return n
+}
+
+// c05EnvCleanup restores the environment (deferred by every interpreter).
+func c05EnvCleanup() {
+	for _, n := range c05EnvSet {
+		_ = os.Unsetenv(n)
+	}
+	c05EnvSet = c05EnvSet[:0]
 }
 
 // c05JV is a JSON document node.
@@ -176,6 +215,12 @@ func (f *c05Fld) tagText(i int) string {
 	}
 	if f.Str {
 		parts = append(parts, "string")
+	}
+	if f.Inh {
+		parts = append(parts, "inherit")
+	}
+	if f.Env {
+		parts = append(parts, "env="+c05EnvAssign(f))
 	}
 	return f.Tag + ":" + strconv.Quote(strings.Join(parts, ","))
 }
